@@ -38,7 +38,8 @@ CHECKS = {
         'Every task\'s bound parameter values and its computed value are compared with the model\'s precedence rules over '
         'generated trees/contexts; missing/wrong-typed/conflicting declarations must fail at construction; caller-owned '
         'context objects are snapshotted, container values are mutated through one task and must not be visible '
-        'elsewhere, and a second Config from the same objects must agree again.',
+        'elsewhere, and a second Config from the same objects must agree again; every build is preceded, in the same '
+        'process, by attempts with one of its files missing (a failed construction leaves nothing behind).',
         'Model trusted as for C08; cross-level context precedence follows "namespace over global".',
         'DESIGN.md §3, §4 C09',
     ),
@@ -125,7 +126,8 @@ CHECKS = {
         'a later chain either sees no result and recomputes exactly once, or sees the complete correct value. Raised '
         'faults (before/within run, KeyboardInterrupt before/within run, in generator bodies, mistyped, unserialisable; on '
         'first and on forced computation) are checked for recovery in the same and in a new chain, and for the '
-        'work-directory protocol of DirData / ContinuesData. Data kinds include FigureData.',
+        'work-directory protocol of DirData / ContinuesData (also with a reader of the earlier finished result between '
+        'an interrupted and the resumed recomputation). Data kinds include FigureData.',
         'Process death, not power loss (sequential writes persist up to the crash point); h5py I/O is not exercised; '
         'states are probed by new chains in the same process.',
         'DESIGN.md §4 C05',
@@ -222,10 +224,12 @@ CHECKS = {
         'Each run tags its messages and records with its run id; after every step the run info and log of every task whose '
         'location was last written successfully are compared field by field (task, every parameter representation, input '
         'keys, config, records, exact tagged message list, no foreign/garbled lines); failures, retries in the same '
-        'process and forced recomputations are part of the histories.',
+        'process and forced recomputations are part of the histories; one history in four runs in name mode with sibling '
+        'dotted config names sharing one directory; one run in four constructs another chain of its config mid-run.',
         'After a failed attempt over a stored result the run info must still be the producing run\'s; nothing is asserted '
         'about the log until the next success; logger thresholds set by the user are honoured (a run that logs nothing '
-        'leaves an empty log); in-memory tasks are not checked.',
+        'leaves an empty log); in-memory tasks are not checked; input keys are asserted in parameter mode only (in name '
+        'mode every key is the config name, which the run info gives as config.name).',
         'DESIGN.md §4 C18',
     ),
     'C19': (
